@@ -1862,6 +1862,9 @@ def run(ctx):
     run_utf8(ctx, R)
     run_pictures(ctx)
     R.flush()
+    # FLAC block classes (Picture, SeekTable, CueSheet, Padding, Application) against Model/FlacBlocks.lean
+    import flacblocks_tie
+    flacblocks_tie.run(ctx)
     # the file-level compositions (Props/C01_Files, C01_OggInject, C01_Asf) rest on the container models, whose ties (incl. the
     # comparison of every saved output's tags with a real reload) run under C02/C03/C07/C08/C09
     ctx.hist.update(_hist)
